@@ -230,6 +230,8 @@ void reb_read_simulationarchive_from_stream_with_messages(struct reb_simulationa
             for(int64_t i=0;i<nblobsmax;i++){
                 struct reb_binary_field field = {0};
                 sa->offset[i] = ftell(sa->inf);
+                // A delta only stores the time if it differs from the first snapshot's time.
+                sa->t[i] = (i>0) ? sa->t[0] : 0.;
                 int blob_finished = 0;
                 do{
                     size_t r1 = fread(&field,sizeof(struct reb_binary_field),1,sa->inf);
